@@ -168,7 +168,250 @@ def run(tier):
         _cn(chk, pt, cls, xl, s1, s2, tier)
         _linear(chk, pt, cls, xl, s1, s2)
     _normal_form(chk)
+    _admissible(chk)
+    _solver_exits(chk)
+    _triangular_linear(chk)
+    _modes_at_extremes(chk)
     return chk
+
+
+def _triangular_linear(chk):
+    """L4/L5: the matrix whose eigenvalues are reported (J*Hess H2 in (x, y, px, py, z, pz)) is the linearisation of the
+    equations of motion at the library's own position of the point, entry by entry - in particular the mixed term
+    a = Omega_xy carries the point's own sign (L5 = mirror image of L4)."""
+    x, y, z = common.STATE[:3]
+    for cls in ("_L4DynamicsService", "_L5DynamicsService"):
+        svc = _svc(cls)
+        ip = Interp()
+        pos = [S(v) for v in to_obj_array(ip.apply(ip.getattr(svc, "_compute_position"), [], {}))]
+        F = to_obj_array(Interp().call_function(RTBP, "_jacobian_crtbp", [pos[0], pos[1], pos[2], MU]))
+        Fm = sp.Matrix(6, 6, lambda i, j: sp.simplify(S(F[i, j])))
+        # canonical momenta p = v + K x of the rotating frame: px = vx - y, py = vy + x, pz = vz
+        T = sp.eye(6)
+        T[3, 1], T[4, 0] = -1, 1
+        A = (T * Fm * T.inv()).applyfunc(sp.simplify)          # ordering (x, y, z, px, py, pz)
+        perm = [0, 1, 3, 4, 2, 5]                               # -> (x, y, px, py, z, pz), the ordering _J_hess_H2 is written in
+        Aperm = sp.Matrix(6, 6, lambda i, j: A[perm[i], perm[j]])
+        Jh = sp.Matrix(to_obj_array(Interp().apply(Interp().getattr(svc, "_J_hess_H2"), [], {})).tolist()).applyfunc(lambda e: sp.nsimplify(e, rational=True))
+        diff = (Jh - Aperm).applyfunc(sp.simplify)
+        bad = [((i, j), str(Jh[i, j]), str(Aperm[i, j])) for i in range(6) for j in range(6) if diff[i, j] != 0]
+        chk.check(not bad, "C04.e", f"{LIB}::{cls}._J_hess_H2",
+                  f"{cls}: J*Hess(H2) is not the linearised vector field at the point in canonical coordinates; differing entries (got, want): {bad[:3]}",
+                  sample=f"{cls}: J_hess_H2 == T Df(x_L) T^-1 entry by entry (a = Omega_xy = {A[3, 1]})")
+    chk.count("functions partially evaluated", 6)
+
+
+def _modes_at_extremes(chk):
+    """The code that turns the computed eigenvalues into (lambda, omega1, omega2) / (omega1, omega2, omega_z) identifies two
+    eigenvalues as 'the same frequency' with a tolerance.  Distinct frequencies approach each other as mu -> 0 (L3: planar
+    vs vertical, gap ~ 0.44 mu; L4/L5: long... short-period vs vertical, gap ~ 27/8 mu), so the tolerance must stay below the
+    gap at the smallest catalogue ratio.  The selection code is interpreted on the exact eigenvalues (40 digits, from the
+    library's own quintic / c2 / J_hess_H2 formulas) at the smallest catalogue ratio and at Earth-Moon, with the numerical
+    eigen-solver replaced by those values."""
+    cat = _catalogue()
+    mu_min = min(m for _, _, m in cat)
+    mu_em = next(m for p, s, m in cat if (p, s) == ("earth", "moon"))
+    digits = 40
+    for label, mu in (("smallest catalogue ratio", mu_min), ("earth-moon", mu_em)):
+        # triangular
+        a2 = sp.Rational(27, 16) * (1 - 2 * mu) ** 2
+        disc = sp.sqrt(1 - 4 * (sp.Rational(27, 16) - a2))
+        w1, w2 = sp.sqrt((1 + disc) / 2).evalf(digits), sp.sqrt((1 - disc) / 2).evalf(digits)
+        for cls in ("_L4DynamicsService", "_L5DynamicsService"):
+            svc = _svc(cls, mu=mu)
+            Jh = sp.Matrix(to_obj_array(Interp().apply(Interp().getattr(svc, "_J_hess_H2"), [], {})).tolist())
+            lam = sp.Symbol("lam")
+            cp = sp.Poly(sp.expand((Jh.applyfunc(lambda e: sp.nsimplify(e, rational=False)) - lam * sp.eye(6)).det()), lam)
+            vals = [sp.I * w1, -sp.I * w2, sp.I, -sp.I * w1, sp.I * w2, -sp.I]
+            resid = max(abs(sp.N(cp.eval(v), digits)) for v in vals)
+            if resid > sp.Float(10) ** (-25):
+                raise AnalysisError(f"{cls}: reference eigenvalues do not annihilate the characteristic polynomial of _J_hess_H2 (residual {resid})")
+            ip = Interp(np_overrides={"linalg.eigvals": lambda ip_, a_, k: to_obj_array(vals), "linalg.eig": lambda ip_, a_, k: (to_obj_array(vals), None)})
+            try:
+                out = ip.apply(ip.getattr(svc, "_compute_linear_modes"), [], {})
+                got = sorted(abs(sp.N(S(v), digits)) for v in out)
+                want = sorted([w1, w2, sp.Float(1, digits)])
+                ok = len(got) == 3 and all(abs(g - w) < sp.Float(10) ** (-11) for g, w in zip(got, want))
+                msg = f"returned {[str(sp.N(v, 12)) for v in out]}, eigenvalues are +-i*{sp.N(w1, 12)}, +-i*{sp.N(w2, 12)}, +-i"
+            except KpeRaise as exc:
+                ok, msg = False, f"raises: {exc.text[:120]} (frequencies {sp.N(w1, 12)}, {sp.N(w2, 12)}, 1 are distinct: gaps {sp.N(1 - w1, 3)}, {sp.N(w2, 3)})"
+            chk.check(ok, "C04.e", f"{LIB}::_TriangularDynamicsService._compute_linear_modes[{cls[1:3]},{label}]",
+                      f"{cls[1:3]} at mu = {sp.N(mu, 6)}: the reported frequencies are not the eigenvalues of the linearised equations: {msg}",
+                      sample=f"{cls[1:3]}, mu={sp.N(mu, 6)}: three distinct frequencies recovered from the exact spectrum")
+        # collinear
+        for pt, cls in POINTS.items():
+            coeffs, rng = Interp().getattr(_svc(cls, mu=mu), "_gamma_poly_def")
+            g = sp.Symbol("g")
+            quint = sp.Poly(sum(S(c) * g ** (len(coeffs) - 1 - i) for i, c in enumerate(coeffs)), g)
+            roots = [r for r in quint.nroots(n=digits) if r.is_real and S(rng[0]) < r < S(rng[1])]
+            if len(roots) != 1:
+                raise AnalysisError(f"{pt}: gamma quintic has {len(roots)} roots in its search range at mu={mu}")
+            gam = roots[0]
+            svc_g = _svc(cls, mu=mu, gamma=gam)
+            c2 = sp.N(S(Interp().apply(Interp().getattr(svc_g, "_compute_cn"), [2], {})), digits)
+            root = sp.sqrt(9 * c2 ** 2 - 8 * c2)
+            lam1, om1, om2 = sp.sqrt((c2 - 2 + root) / 2), sp.sqrt((2 - c2 + root) / 2), sp.sqrt(c2)
+            vals = [lam1, sp.I * om1, sp.I * om2, -lam1, -sp.I * om2, -sp.I * om1]
+            svc = _svc(cls, mu=mu, gamma=gam, cn=lambda n, _c2=c2: _c2)
+            ip = Interp(np_overrides={"linalg.eig": lambda ip_, a_, k: (to_obj_array(vals), None), "linalg.eigvals": lambda ip_, a_, k: to_obj_array(vals)})
+            try:
+                out = ip.apply(ip.getattr(svc, "_compute_linear_modes"), [], {})
+                got = [sp.N(S(v), digits) for v in out]
+                ok = len(got) == 3 and all(abs(a_ - b_) < sp.Float(10) ** (-11) for a_, b_ in zip(got, (lam1, om1, om2)))
+                msg = f"returned {[str(sp.N(v, 12)) for v in got]}, expected (lambda, omega_planar, omega_vertical) = ({sp.N(lam1, 12)}, {sp.N(om1, 12)}, {sp.N(om2, 12)})"
+            except KpeRaise as exc:
+                ok, msg = False, f"raises: {exc.text[:120]} (omega_planar - omega_vertical = {sp.N(om1 - om2, 3)})"
+            chk.check(ok, "C04.e", f"{LIB}::_CollinearDynamicsService._compute_linear_modes[{pt},{label}]",
+                      f"{pt} at mu = {sp.N(mu, 6)}: the reported exponent/frequencies are not the eigenvalues of the linearised equations: {msg}",
+                      sample=f"{pt}, mu={sp.N(mu, 6)}: (lambda, omega1, omega2) recovered from the exact spectrum, gap {sp.N(om1 - om2, 3)}")
+    chk.count("functions partially evaluated", 20)
+
+
+ROOT = "hiten.algorithms.utils.rootfinding"
+
+
+def _solver_exits(chk):
+    """The bracketed root solver hands back a value only at an exact zero of the function or when the bracket has shrunk
+    below the x-tolerance.  (A residual tolerance |f| <= ftol would stop early where f is flat: the gamma quintic's slope
+    at its root tends to 0 with mu, so gamma - and c2, lambda, omega with it - would lose all accuracy for small mass
+    ratios while Earth-Moon stays fine.)  Path rule on the solver's CFG: for every `return <value>` the nearest dominating
+    test mentions function values only in comparisons with literal zero (== on the taken edge), and the x-tolerance
+    reaches at least one exit test."""
+    from ..cfg import CFG
+    mod, fn = ri.find_def(ROOT, "solve_bracketed_brent")
+    fparam = fn.args.args[0].arg
+    # names that hold function values: assigned from a call of f, or copied among themselves
+    res = set()
+    changed = True
+    assigns = []
+    for n in ast.walk(fn):
+        if isinstance(n, ast.Assign):
+            for t in n.targets:
+                assigns.append((t, n.value))
+    def is_res_expr(e):
+        if isinstance(e, ast.Name):
+            return e.id in res
+        if isinstance(e, ast.Call):
+            f = e.func
+            if isinstance(f, ast.Name) and f.id == fparam:
+                return True
+            if isinstance(f, ast.Name) and f.id == "float" and e.args:
+                return is_res_expr(e.args[0])
+        return False
+    while changed:
+        changed = False
+        for t, v in assigns:
+            pairs = list(zip(t.elts, v.elts)) if isinstance(t, ast.Tuple) and isinstance(v, ast.Tuple) and len(t.elts) == len(v.elts) else [(t, v)]
+            for tt, vv in pairs:
+                if isinstance(tt, ast.Name) and tt.id not in res and is_res_expr(vv):
+                    res.add(tt.id)
+                    changed = True
+    # names derived from the x-tolerance parameter
+    xt = {"xtol"} if any(a.arg == "xtol" for a in fn.args.args + fn.args.kwonlyargs) else set()
+    if not xt or not res:
+        raise AnalysisError(f"anchor: solve_bracketed_brent no longer has an xtol parameter / function-value variables (found {sorted(res)})")
+    changed = True
+    while changed:
+        changed = False
+        for t, v in assigns:
+            if isinstance(t, ast.Name) and t.id not in xt and any(isinstance(x, ast.Name) and x.id in xt for x in ast.walk(v)):
+                xt.add(t.id)
+                changed = True
+    g = CFG(fn)
+    idom = g.dominators()
+    n_ret, width_guard = 0, 0
+    for node in g.stmt_nodes(cls=ast.Return):
+        st = g.data(node)["stmt"]
+        if st.value is None or (isinstance(st.value, ast.Constant) and st.value.value is None):
+            continue
+        n_ret += 1
+        guards = g.guarded_by(node, idom)
+        if not guards:
+            chk.fail("C04.c", f"{ROOT}::solve_bracketed_brent[{ri.norm_stmt(st)} unguarded]", "a value is returned without any convergence test on the path")
+            continue
+        tnode, pol = guards[0]
+        cond = g.data(tnode)["ast"]
+        atoms = []
+        def split(e):
+            if isinstance(e, ast.BoolOp):
+                for v in e.values:
+                    split(v)
+            elif isinstance(e, ast.UnaryOp) and isinstance(e.op, ast.Not):
+                split(e.operand)
+            else:
+                atoms.append(e)
+        split(cond)
+        bad = []
+        for a in atoms:
+            names = {x.id for x in ast.walk(a) if isinstance(x, ast.Name)}
+            if names & xt:
+                width_guard += 1
+            if not (names & res):
+                continue
+            exact = isinstance(a, ast.Compare) and len(a.ops) == 1 and isinstance(a.ops[0], ast.Eq if pol else ast.NotEq) and \
+                any(isinstance(c, ast.Constant) and c.value == 0 for c in [a.left] + a.comparators) and \
+                any(isinstance(c, ast.Name) and c.id in res for c in [a.left] + a.comparators)
+            if not exact:
+                bad.append(ast.unparse(a))
+        chk.check(not bad, "C04.c", f"{ROOT}::solve_bracketed_brent[exit `{ast.unparse(cond)[:40]}`]",
+                  f"the solver returns a value on a test of the function value other than an exact zero: {bad} - accuracy in x then depends on the slope of f at the root, "
+                  "which vanishes with mu for the gamma quintic", sample=f"return under `{ast.unparse(cond)[:50]}` ({'taken' if pol else 'not taken'} edge)")
+    chk.floor("value returns of the root solver examined", n_ret, 3)
+    chk.check(width_guard >= 1, "C04.c", f"{ROOT}::solve_bracketed_brent[x-tolerance]", "no exit test of the solver involves the x-tolerance", sample="abs(m) <= tol(xtol)", nontrivial=False)
+
+
+def _admissible(chk):
+    """Every admissible mass ratio gets its five points: the constructors' guards admit the whole interval (0, 1/2], end point
+    included, down to the smallest catalogue ratio."""
+    smallest = min(m for _, _, m in _catalogue())
+    for modname, cname in (("hiten.system.libration.collinear", "CollinearPoint"), ("hiten.system.libration.triangular", "TriangularPoint")):
+        mod, cls = ri.find_def(modname, cname)
+        for label, mu in (("mu = 1/2", sp.Rational(1, 2)), ("smallest catalogue ratio", smallest), ("mu = 1/4", sp.Rational(1, 4))):
+            system = SymObj(None, {"mu": mu}, "system")
+            ip = Interp(overrides={"_setup_services": lambda ip_, a, k: None})
+            # the base-class constructor wires services; only the guards of the class itself are of interest here
+            base_init = []
+            for bm, bc in ri.mro(mod, cls)[1:]:
+                if any(isinstance(f, ast.FunctionDef) and f.name == "__init__" for f in bc.body):
+                    base_init.append((bm.name, bc.name + ".__init__"))
+            for key in base_init:
+                ip.overrides[key] = lambda ip_, a, k: None
+            raised = None
+            try:
+                ip.apply(ClassRef(mod, cls), [system], {})
+            except KpeRaise as exc:
+                raised = exc.text
+            except OutsideFragment as exc:
+                raise AnalysisError(f"{cname}.__init__ outside fragment: {exc}")
+            chk.check(raised is None, "C04.a", f"{modname}::{cname}.__init__[{label}]", f"{cname} cannot be constructed for the admissible mass ratio {label}: {raised}",
+                      sample=f"{cname}(system with {label}) is accepted", nontrivial=(label != "mu = 1/4"))
+    chk.count("functions partially evaluated", 6)
+
+
+def gamma_quintics(chk):
+    """Only the [quintic] obligations of C04.b (re-filed by C07: the gamma that scales and centres the local frame is the
+    distance ratio of the equilibrium)."""
+    R = Radicals()
+    field = common.crtbp_field()
+    x = sp.Symbol("xq", real=True)
+    svc = _svc("_L1DynamicsService")
+    ip = Interp()
+    dO = S(ip.apply(ip.getattr(svc, "_dOmega_dx"), [x], {}))
+    for pt, cls in POINTS.items():
+        xl, svc_g = _xL(pt)
+        s1 = _sign_on((xl + MU).subs(GAM, sp.Rational(1, 3)), MU, 0, sp.Rational(1, 2)) if (xl + MU).has(MU) else int(sp.sign((xl + MU).subs(GAM, sp.Rational(1, 3))))
+        s2 = int(sp.sign((xl - 1 + MU).subs(GAM, sp.Rational(1, 3)))) if not (xl - 1 + MU).has(MU) else None
+        if s1 is None or s2 is None:
+            raise AnalysisError(f"{pt}: cannot fix the side of the primaries for x_L = {xl}")
+        expr = sp.together(_on_axis(dO, x, s1, s2).subs(x, xl))
+        num, den = sp.fraction(sp.together(expr))
+        coeffs, rng = Interp().getattr(_svc(cls), "_gamma_poly_def")
+        quint = sum(S(c) * GAM ** (len(coeffs) - 1 - i) for i, c in enumerate(coeffs))
+        ratio = sp.cancel(sp.expand(num) / sp.expand(quint))
+        chk.check(not ratio.has(GAM) and ratio != 0, "C04.b", f"{LIB}::{cls}._gamma_poly_def[quintic]",
+                  f"{pt}: the gamma polynomial is not proportional to the numerator of dOmega/dx at x_L(gamma) = {xl}; ratio = {short(ratio)}",
+                  sample=f"{pt}: numerator(dOmega/dx(x_L(gamma))) = ({ratio}) * quintic(gamma), x_L = {xl}")
+    chk.count("functions partially evaluated", 4)
 
 
 # --------------------------------------------------------------------------------------------- triangular
